@@ -1033,6 +1033,10 @@ class Real:
 
 # =========================================================================== tasks
 PARTS = ('static', 'ops', 'hidden', 'chains')
+# clauses about the state of the real object in a configuration (however it was reached)
+STATE_CLAUSES = {'value-differs-from-hand-written', 'signature-differs-from-hand-written',
+                 'formula-text-differs-from-hand-written', 'catalog-not-on-the-member-of-its-controller',
+                 'current-configuration-differs', 'value-differs-from-mathematical-value'}
 
 
 def tasks(tier, seed):
@@ -1073,7 +1077,9 @@ def run_task(task, _raw=False):
 
         def vio_factory(witness_prefix):
             def vio(clause, what, expected=None, observed=None, witness=None):
-                key = f'C16|{clause}|{st["name"]}' + (f':{witness}' if witness else (f':{witness_prefix}' if witness_prefix else ''))
+                # finding key: clause + structure (+ operator kind for clauses about an operator's result)
+                prefix = '' if clause in STATE_CLAUSES else witness_prefix
+                key = f'C16|{clause}|{st["name"]}' + (f':{witness}' if witness else (f':{prefix}' if prefix else ''))
                 rec.violation(key, f'[{st["name"]}, seed {task["seed"]}] {what}', dict(case, key=key),
                               expected=expected, observed=observed)
             return vio
